@@ -221,6 +221,10 @@ PROPS["C16"] = {
           covers=["probability one or more", "probability zero or less"], bounds="unwind 5", timeout=900),
         H("c16_complete_n0", "ac", "complete_graph(0, directed): directed symbolic; node set, edge count, every pair joined, no self-loops", covers=["directed", "undirected"], bounds="n=0", timeout=600),
         H("c16_complete_n1", "ac", "complete_graph(1, directed)", covers=["directed", "undirected"], bounds="n=1", timeout=600),
+        H("c16_complete_n2_u", "ac", "complete_graph(2, false): directedness a constant (case split); nothing left symbolic - exhaustive bounded execution of the real generator + new_from_nodes_and_edges (one real add_edge) with all panics as assertions; measured 78 s + compile", covers=["undirected"], bounds="n=2", timeout=1500),
+        H("c16_complete_n2_d", "ac", "complete_graph(2, true): case split as above; two real add_edge calls: no verdict in 15 min / 20 GB (M9, M10), 'full' tier only", tier="full", covers=["directed"], bounds="n=2", timeout=3000),
+        H("c16_complete_n3_u", "ac", "complete_graph(3, false): case split as above", tier="full", covers=["undirected"], bounds="n=3", timeout=2400),
+        H("c16_complete_n3_d", "ac", "complete_graph(3, true): case split as above", tier="full", covers=["directed"], bounds="n=3", timeout=2400),
         H("c16_complete_n2", "ac", "complete_graph(2, directed): measured > 15 min (itertools permutations/combinations over symbolic `directed`), 'full' tier only", tier="full", covers=["directed", "undirected"], bounds="n=2", timeout=3000),
         H("c16_complete_n3", "ac", "complete_graph(3, directed): > 24 GB, 'full' tier only", tier="full", covers=["directed", "undirected"], bounds="n=3", timeout=2400),
         H("c16_gnp_directed_n3", "ac", "n=3 directed (7 draws, unwind 8): measured > 24 GB, kept in the 'full' tier only", tier="full",
